@@ -9,7 +9,7 @@ def kindCompat (k : Kind) (x : Nud) (l : Led) : Bool :=
    | .prefix => k == .plusminus || k == .prefix1
    | .import_ => k == .import_ | .sink => k == .sink | .func => k == .function | .return_ => k == .return_
    | .identifier => k == .identifier | .guard => k == .if_ | .loop => k == .loop | .try_ => k == .try_
-   | .mutex => k == .mutex | .block => k == .free
+   | .mutex => k == .mutex | .block => false
    | .list => true | .map => true | .inner => true | .none => true) &&
   (match l with | .infix => k == .binary || k == .plusminus | .none => true)
 
@@ -51,5 +51,100 @@ theorem noNil_instanceOf (bb id t) : noNil (instanceOf bb id t) = true := by
 
 theorem Fresh.noNil {n : Node} (h : Fresh n) : noNil n = true := by
   rw [noNil_eq, h.children]; rfl
+
+end Ecal.Parse
+
+namespace Ecal.Parse
+open Ecal.Lex
+
+/-! ### every node name is a known node kind and there is no nil child, recursively -/
+def knownName (s : String) : Bool := kindOf s != .unknown
+
+mutual
+def okTree : Node → Bool
+  | .mk nm _ _ _ _ cs _ => knownName nm && kidsOk cs
+def kidsOk : List (Option Node) → Bool
+  | [] => true
+  | none :: _ => false
+  | some c :: r => okTree c && kidsOk r
+end
+
+theorem okTree_eq (n : Node) : okTree n = (knownName n.name && kidsOk n.children) := by
+  cases n; simp [okTree, Node.children, Node.name]
+
+theorem kidsOk_append (cs : List (Option Node)) (c : Node) : kidsOk (cs ++ [some c]) = (kidsOk cs && okTree c) := by
+  induction cs with
+  | nil => simp [kidsOk]
+  | cons x xs ih => cases x <;> simp [kidsOk, ih, Bool.and_assoc]
+
+theorem okTree_add {n c : Node} (hn : okTree n = true) (hc : okTree c = true) : okTree (n.add (some c)) = true := by
+  rw [okTree_eq] at hn ⊢; simp [kidsOk_append] at hn ⊢; simp [hn, hc]
+
+@[simp] theorem okTree_addMeta (n : Node) (ms) : okTree (n.addMeta ms) = okTree n := by
+  rw [okTree_eq, okTree_eq]; simp
+
+/-- token ids of the nodes the parser constructs itself -/
+def constructedId (id : Nat) : Bool := id = 8 || id = 9 || id = 10 || id = 11 || id = 12 || id = 13 || id = 14 || id = 61
+
+theorem okInst {bb id : Nat} {t : Option Tok} (h : constructedId id = true) : okTree (instanceOf bb id t) = true := by
+  simp only [constructedId, Bool.or_eq_true, decide_eq_true_eq] at h
+  rcases h with ((((((h | h) | h) | h) | h) | h) | h) | h <;> subst h <;>
+    simp [instanceOf, T_LBRACE, table, okTree, kidsOk] <;> decide
+
+theorem kind_known_of_nud {k : Kind} {x : Nud} {l : Led} (h : kindCompat k x l = true)
+    (h1 : x ≠ .none) (h2 : x ≠ .inner) (h3 : x ≠ .list) (h4 : x ≠ .map) : k ≠ .unknown := by
+  cases x <;> cases k <;> simp_all [kindCompat]
+
+theorem kind_known_of_led {k : Kind} {x : Nud} {l : Led} (h : kindCompat k x l = true)
+    (h1 : l ≠ .none) : k ≠ .unknown := by
+  cases l <;> cases k <;> simp_all [kindCompat]
+
+/-- name, nud, led of a fresh node: a block-start brace (no denotations) or a table entry -/
+theorem Fresh.entry {n : Node} (h : Fresh n) :
+    (n.nud = .none ∧ n.led = .none) ∨ (∃ b, n.tok.map (·.id) ≠ none ∧ ∃ id, table id = some (n.name, b, n.nud, n.led)) := by
+  obtain ⟨bb, t, ms, ht, rfl⟩ := h
+  unfold instanceOf
+  split
+  · left; simp [Node.nud, Node.led, Node.addMeta]
+  · cases htab : table t.id with
+    | none => simp [htab] at ht
+    | some v =>
+      obtain ⟨nm, b, x, l⟩ := v
+      right
+      exact ⟨b, by simp [Node.tok, Node.addMeta], t.id, by simp [htab, Node.name, Node.nud, Node.led, Node.addMeta]⟩
+
+theorem Fresh.ok_of_nud {n : Node} (h : Fresh n) (k : Nud) (hk : n.nud = k)
+    (h1 : k ≠ .none) (h2 : k ≠ .inner) (h3 : k ≠ .list) (h4 : k ≠ .map) : okTree n = true := by
+  subst hk
+  rw [okTree_eq, h.children]
+  rcases h.entry with ⟨hn, _⟩ | ⟨b, _, id, htab⟩
+  · exact absurd hn h1
+  · have := kind_known_of_nud (table_kind id htab) h1 h2 h3 h4
+    simp [knownName, kidsOk, this]
+
+theorem Fresh.ok_of_led {n : Node} (h : Fresh n) (h1 : n.led ≠ .none) : okTree n = true := by
+  rw [okTree_eq, h.children]
+  rcases h.entry with ⟨_, hl⟩ | ⟨b, _, id, htab⟩
+  · exact absurd hl h1
+  · have := kind_known_of_led (table_kind id htab) h1
+    simp [knownName, kidsOk, this]
+
+/-- token ids handed to `acceptChild` -/
+def acceptId (id : Nat) : Bool := id = 5 || id = 7 || id = 43 || id = 70 || id = 71 || id = 72
+
+theorem accept_ok {c : Node} {id : Nat} (h : Fresh c) (hid : ∃ t, c.tok = some t ∧ t.id = id)
+    (ha : acceptId id = true) : okTree c = true := by
+  obtain ⟨t, ht, hidt⟩ := hid
+  subst hidt
+  rw [okTree_eq, h.children]
+  simp only [acceptId, Bool.or_eq_true, decide_eq_true_eq] at ha
+  have hne : t.id ≠ 26 := by omega
+  rcases ha with ((((ha | ha) | ha) | ha) | ha) | ha
+  · rw [h.name_of_id ht hne (by rw [ha]; rfl)]; decide
+  · rw [h.name_of_id ht hne (by rw [ha]; rfl)]; decide
+  · rw [h.name_of_id ht hne (by rw [ha]; rfl)]; decide
+  · rw [h.name_of_id ht hne (by rw [ha]; rfl)]; decide
+  · rw [h.name_of_id ht hne (by rw [ha]; rfl)]; decide
+  · rw [h.name_of_id ht hne (by rw [ha]; rfl)]; decide
 
 end Ecal.Parse
